@@ -120,23 +120,42 @@ def _fold(X, st, selfv, toks, current=False, init_env=None):
     ax = [F[c](0) == init[c] for c in COMPS]
     ax += [safe_forall([k], z3.Implies(k >= 0, F[c](k + 1) == nxt[c]), patterns=[F[c](k + 1)]) for c in COMPS]
     ax += enc_axioms()
-    if current:
-        n, j = z3.Int("n!df"), z3.Int("j!df")
-        for okey, (G, gax, gel, gcur) in list(cache.items()):
-            if not gcur or okey[1:] != key[1:]:
-                continue
-            for (A, elA, Bf, elB) in ((G, gel, F, el), (F, el, G, gel)):
-                hyp = safe_forall([j], z3.Implies(z3.And(0 <= j, j < n), elA[j] == elB[j]))
-                concl = z3.And([Bf[c](n) == A[c](n) for c in COMPS])
-                ax.append(safe_forall([n], z3.Implies(z3.And(n >= 0, hyp), concl), patterns=[A["time"](n)]))
-            X.notes.append("L: instances of lemma dfold_ext relate the decoder folds of a token list under construction")
     def inst(kt):
         """ground instance of the recursion at index kt: F(kt + 1) = step(F(kt), toks[kt])"""
         return [z3.Implies(kt >= 0, z3.substitute(F[c](k + 1) == nxt[c], (k, kt))) for c in COMPS]
     cache[key] = (F, ax, el, current)
     F["__inst__"] = inst
+    F["__key__"] = key
     X.notes.append("spec: dfold = left fold of the property-level decoder step over the token list (recursion axioms)")
     return cache[key][:2]
+
+
+def _pair_axioms(X, st, F):
+    """instances of lemma dfold_ext between fold F and every other fold over a list under construction that THIS state already
+    talks about (equal prefixes give equal folds)"""
+    cache = X.__dict__.setdefault("_dfold", {})
+    pairs = X.__dict__.setdefault("_dfold_pairs", {})
+    key = F["__key__"]
+    _, ax, el, current = cache[key]
+    if not current:
+        return []
+    have = {p.get_id() for p in st.pc}
+    out = []
+    n, j = z3.Int("n!df"), z3.Int("j!df")
+    for okey, (G, gax, gel, gcur) in list(cache.items()):
+        if not gcur or okey == key or okey[1:] != key[1:] or gax[len(COMPS)].get_id() not in have:
+            continue
+        pk = (okey, key) if okey[0] < key[0] else (key, okey)
+        if pk not in pairs:
+            pax = []
+            for (A, elA, Bf, elB) in ((G, gel, F, el), (F, el, G, gel)):
+                hyp = safe_forall([j], z3.Implies(z3.And(0 <= j, j < n), elA[j] == elB[j]))
+                concl = z3.And([Bf[c](n) == A[c](n) for c in COMPS])
+                pax.append(safe_forall([n], z3.Implies(z3.And(n >= 0, hyp), concl), patterns=[A["time"](n)]))
+            pairs[pk] = pax
+            X.notes.append("L: instances of lemma dfold_ext relate the decoder folds of a token list under construction")
+        out += pairs[pk]
+    return out
 
 
 def _use(st, ax):
@@ -220,6 +239,8 @@ def dfold_g(X, st, e):
     comp = e.args[3].value
     genv = st.meta.get("old_env", st.env)
     F, ax = _fold(X, st, selfv, toks, current=True, init_env={n: genv[n] for n in genv if n.startswith("g_")})
+    if ax[len(COMPS)].get_id() not in {p.get_id() for p in st.pc}:
+        _use(st, _pair_axioms(X, st, F))
     _use(st, ax)
     # E-matching cannot see that F(n + 2) is F((n + 1) + 1): the last few unfoldings below the queried index are given as ground facts
     ks = z3.simplify(k.v)
@@ -383,7 +404,7 @@ contract(f"{TK}.tokenise",
                  ("bar_closes", "implies(entry(buf_rest) == entry(cur_bar_capacity_remaining) and entry(buf_rest) > 0,"
                                 " (buf_rest == cur_bar_capacity_remaining and buf_rest > 0) or (buf_rest == 0 and cur_time_bar == 0))")]),
          },
-         props=[])      # NOT registered yet: 433 of 17137 obligations still undecided within budget and the run takes ~25 min on 16 cores (DESIGN 11.6)
+         props=["C01", "C02", "C03"])
 
 
 @lemma("dfold_ok_means_all", ["C02", "C01"])
